@@ -1,183 +1,450 @@
-# Prototype interpreters for SVG / EPS / PDF / TikZ output -> set of covered unit squares (module grid)
-import re, zlib, io, math
+"""Mini-interpreters for the vector outputs (SVG, EPS, PDF, PGF/TikZ). Each returns
+the page box and the stroked horizontal line segments in *page units* with a
+top-left origin (x1, y_centre, x2, line_width, colour), after applying the
+document's own transforms, plus background fills. Imports nothing from segno."""
+import re
 import xml.etree.ElementTree as ET
+import zlib
 
-class Bad(Exception): pass
+NUM = r'[-+]?(?:\d+\.?\d*|\.\d+)(?:[eE][-+]?\d+)?'
 
-def _cover(segments, lw, page, tol=1e-6):
-    """segments: list of (x1, y, x2) horizontal stroked lines in page units with y at centre, top-left origin.
-    lw: line width in page units (= module size). Returns (set of (row, col) covered, problems)"""
-    cells = {}
-    probs = []
-    s = lw
-    for (x1, y, x2) in segments:
-        if x2 < x1: x1, x2 = x2, x1
-        r = (y - s / 2) / s
-        c1 = x1 / s; c2 = x2 / s
-        if abs(r - round(r)) > 1e-6 or abs(c1 - round(c1)) > 1e-6 or abs(c2 - round(c2)) > 1e-6:
-            probs.append(('off-grid', x1, y, x2)); continue
-        r = int(round(r))
-        for c in range(int(round(c1)), int(round(c2))):
-            cells[(r, c)] = cells.get((r, c), 0) + 1
-        if x1 < -tol or x2 > page + tol or y - s/2 < -tol or y + s/2 > page + tol:
-            probs.append(('outside-page', x1, y, x2))
-    return cells, probs
 
+class Bad(Exception):
+    pass
+
+
+# ------------------------------------------------------------------------ SVG
 def read_svg(data):
-    root = ET.fromstring(data)
+    """data: bytes of a complete SVG document."""
+    try:
+        root = ET.fromstring(data)
+    except ET.ParseError as ex:
+        raise Bad('XML not well-formed: %s' % ex)
     ns = ''
     tag = root.tag
     if tag.startswith('{'):
         ns = tag[:tag.index('}') + 1]
-    def num(v):
-        m = re.match(r'^([0-9.]+)([a-z%]*)$', v)
+        tag = tag[len(ns):]
+    if tag != 'svg':
+        raise Bad('root element %s' % tag)
+    if ns and ns != '{http://www.w3.org/2000/svg}':
+        raise Bad('namespace %s' % ns)
+    info = {'ns': ns, 'attrs': dict(root.attrib), 'title': None, 'desc': None}
+
+    def dim(v):
+        m = re.match(r'^(%s)([a-z%%]*)$' % NUM, v)
+        if not m:
+            raise Bad('dimension %r' % v)
         return float(m.group(1)), m.group(2)
-    info = {'ns': ns, 'attrs': dict(root.attrib)}
+
+    page = None
+    if root.get('width') is not None or root.get('height') is not None:
+        if root.get('width') is None or root.get('height') is None:
+            raise Bad('only one of width/height')
+        w, uw = dim(root.get('width'))
+        h, uh = dim(root.get('height'))
+        if uw != uh:
+            raise Bad('different units')
+        page = (w, h)
+        info['unit'] = uw
     vb = root.get('viewBox')
-    if root.get('width') is not None:
-        w, unit = num(root.get('width')); h, _ = num(root.get('height'))
-        info['page'] = (w, h)
-    if vb:
-        info['viewBox'] = tuple(float(x) for x in vb.split())
-        info.setdefault('page', info['viewBox'][2:])
+    if vb is not None:
+        parts = vb.split()
+        if len(parts) != 4:
+            raise Bad('viewBox %r' % vb)
+        vbx = tuple(float(x) for x in parts)
+        if vbx[0] != 0 or vbx[1] != 0:
+            raise Bad('viewBox origin %r' % vb)
+        info['viewBox'] = vbx
+        if page is not None and (abs(page[0] - vbx[2]) > 1e-9 * max(1, vbx[2]) or abs(page[1] - vbx[3]) > 1e-9 * max(1, vbx[3])):
+            raise Bad('viewBox %r differs from width/height %r' % (vbx, page))
+        page = vbx[2:]
+    if page is None:
+        raise Bad('neither width/height nor viewBox')
+    info['page'] = page
     paths = []
-    def walk(el, scale):
+
+    def walk(el, scale, depth):
         for ch in el:
-            t = ch.tag[len(ns):] if ns else ch.tag
+            t = ch.tag[len(ns):] if ns and ch.tag.startswith(ns) else ch.tag
             tr = ch.get('transform')
             sc = scale
-            if tr:
-                m = re.match(r'^scale\(([0-9.]+)\)$', tr)
-                if not m: raise Bad('transform ' + tr)
+            if tr is not None:
+                m = re.match(r'^scale\((%s)\)$' % NUM, tr)
+                if not m:
+                    raise Bad('transform %r' % tr)
                 sc = scale * float(m.group(1))
-            if t == 'g': walk(ch, sc)
-            elif t == 'path': paths.append((ch, sc))
-            elif t in ('title', 'desc'): info[t] = ch.text
-            else: raise Bad('element ' + t)
-    walk(root, 1.0)
+            if t == 'g':
+                walk(ch, sc, depth + 1)
+            elif t == 'path':
+                paths.append((ch, sc))
+            elif t in ('title', 'desc') and depth == 0:
+                info[t] = ch.text or ''
+            else:
+                raise Bad('unexpected element %s' % t)
+    walk(root, 1.0, 0)
     out = []
     for el, sc in paths:
         d = el.get('d')
-        toks = re.findall(r'[MmhvzlL]|-?[0-9]*\.?[0-9]+', d)
-        i = 0; x = y = 0.0; segs = []; fillrect = None; closed = False
-        start = None
+        if d is None:
+            raise Bad('path without d')
+        toks = re.findall(r'[A-Za-z]|%s' % NUM, d)
+        if ''.join(toks) != re.sub(r'[\s,]+', '', d):
+            raise Bad('path data %r' % d[:40])
+        i = 0
+        x = y = 0.0
+        segs = []
         pts = []
-        while i < len(toks):
-            t = toks[i]
-            if t in 'Mm':
-                nx, ny = float(toks[i+1]), float(toks[i+2]); i += 3
-                if t == 'M': x, y = nx, ny
-                else: x, y = x + nx, y + ny
-                start = (x, y); pts = [(x, y)]
-            elif t == 'h':
-                dx = float(toks[i+1]); i += 2
-                segs.append((x, y, x + dx)); x += dx; pts.append((x, y))
-            elif t == 'v':
-                dy = float(toks[i+1]); i += 2
-                y += dy; pts.append((x, y))
-            elif t == 'z':
-                closed = True; i += 1
-            else: raise Bad('path cmd ' + t)
-        out.append(dict(stroke=el.get('stroke'), fill=el.get('fill'), stroke_opacity=el.get('stroke-opacity'), fill_opacity=el.get('fill-opacity'),
-                        cls=el.get('class'), scale=sc, segs=segs, pts=pts, closed=closed))
+        closed = False
+        try:
+            while i < len(toks):
+                t = toks[i]
+                if t in 'Mm':
+                    nx, ny = float(toks[i + 1]), float(toks[i + 2])
+                    i += 3
+                    if t == 'M' or not pts and not segs:
+                        x, y = nx, ny
+                    else:
+                        x, y = x + nx, y + ny
+                    pts.append((x, y))
+                elif t == 'h':
+                    dx = float(toks[i + 1])
+                    i += 2
+                    segs.append((x, y, x + dx))
+                    x += dx
+                    pts.append((x, y))
+                elif t == 'v':
+                    dy = float(toks[i + 1])
+                    i += 2
+                    y += dy
+                    pts.append((x, y))
+                elif t in 'zZ':
+                    closed = True
+                    i += 1
+                else:
+                    raise Bad('path command %r' % t)
+        except (IndexError, ValueError):
+            raise Bad('path data truncated %r' % d[-30:])
+        out.append({'stroke': el.get('stroke'), 'fill': el.get('fill'), 'stroke_opacity': el.get('stroke-opacity'),
+                    'fill_opacity': el.get('fill-opacity'), 'cls': el.get('class'), 'scale': sc,
+                    'segs': segs, 'pts': pts, 'closed': closed, 'stroke_width': el.get('stroke-width')})
     info['paths'] = out
     return info
 
+
+# ------------------------------------------------------------------------ EPS
 def read_eps(text):
     lines = text.split('\n')
-    if not lines[0].startswith('%!PS-Adobe-3.0 EPSF-3.0'): raise Bad('header')
+    if not lines[0].startswith('%!PS-Adobe-3.0 EPSF-3.0'):
+        raise Bad('EPS header line')
+    if any(len(l) > 255 for l in lines):
+        raise Bad('line longer than 255 characters')
     bb = None
     for l in lines:
-        if l.startswith('%%BoundingBox:'): bb = [float(x) for x in l.split()[1:]]
+        if l.startswith('%%BoundingBox:'):
+            try:
+                bb = [float(x) for x in l.split()[1:]]
+            except ValueError:
+                raise Bad('BoundingBox %r' % l)
+    if bb is None or len(bb) != 4:
+        raise Bad('no BoundingBox')
+    if lines[-1] != '' or lines[-2] != '%%EOF':
+        raise Bad('no %%EOF trailer')
     body = ' '.join(l for l in lines if not l.startswith('%'))
     toks = body.split()
-    stack = []; x = y = None; sc = 1.0; color = (0.0, 0.0, 0.0); bg = None
-    segs = []; stroked = False
+    stack = []
+    x = y = None
+    sc = 1.0
+    color = (0.0, 0.0, 0.0)
+    bg = None
+    segs = []
+    stroke_color = None
+    defs = {}
     i = 0
-    defs = {'m': 'rmoveto', 'l': 'rlineto'}
-    while i < len(toks):
-        t = toks[i]; i += 1
-        if t == '/m' or t == '/l':
-            # /m { rmoveto } bind def
-            i += 5; continue
-        t = defs.get(t, t)
-        if re.match(r'^-?[0-9.]+$', t): stack.append(float(t)); continue
-        if t == 'setrgbcolor': b = stack.pop(); g = stack.pop(); r = stack.pop(); color = (r, g, b)
-        elif t == 'clippath': pass
-        elif t == 'fill': bg = color
-        elif t == 'scale': sy = stack.pop(); sx = stack.pop(); assert sx == sy; sc *= sx
-        elif t == 'newpath': pass
-        elif t == 'moveto': y = stack.pop(); x = stack.pop()
-        elif t == 'rmoveto': dy = stack.pop(); dx = stack.pop(); x += dx; y += dy
-        elif t == 'rlineto':
-            dy = stack.pop(); dx = stack.pop()
-            if dy != 0: raise Bad('non horizontal')
-            segs.append((x, y, x + dx)); x += dx
-        elif t == 'stroke': stroked = True; stroke_color = color
-        else: raise Bad('op ' + t)
-    if not stroked: raise Bad('no stroke')
-    return dict(bbox=bb, scale=sc, segs=segs, color=stroke_color, bg=bg)
+    pending = []   # segments of the current path
+    try:
+        while i < len(toks):
+            t = toks[i]
+            i += 1
+            if t.startswith('/') and toks[i] == '{':
+                j = toks.index('}', i)
+                body_ops = toks[i + 1:j]
+                if toks[j + 1:j + 3] != ['bind', 'def'] or len(body_ops) != 1:
+                    raise Bad('definition %s' % t)
+                defs[t[1:]] = body_ops[0]
+                i = j + 3
+                continue
+            t = defs.get(t, t)
+            if re.match(r'^%s$' % NUM, t):
+                stack.append(float(t))
+            elif t == 'setrgbcolor':
+                b = stack.pop()
+                g = stack.pop()
+                r = stack.pop()
+                if not all(0 <= c <= 1 for c in (r, g, b)):
+                    raise Bad('setrgbcolor out of range')
+                color = (r, g, b)
+            elif t == 'clippath':
+                pass
+            elif t == 'fill':
+                bg = color
+            elif t == 'scale':
+                sy = stack.pop()
+                sx = stack.pop()
+                if sx != sy:
+                    raise Bad('anisotropic scale')
+                sc *= sx
+            elif t == 'newpath':
+                pending = []
+                x = y = None
+            elif t == 'moveto':
+                y = stack.pop()
+                x = stack.pop()
+            elif t == 'rmoveto':
+                dy = stack.pop()
+                dx = stack.pop()
+                x += dx
+                y += dy
+            elif t == 'rlineto':
+                dy = stack.pop()
+                dx = stack.pop()
+                if dy != 0:
+                    raise Bad('non-horizontal line')
+                pending.append((x, y, x + dx))
+                x += dx
+            elif t == 'stroke':
+                stroke_color = color
+                segs.extend(pending)
+                pending = []
+            else:
+                raise Bad('operator %r' % t)
+    except (IndexError, TypeError, ValueError) as ex:
+        raise Bad('PostScript stack/parse error: %s' % ex)
+    if stack:
+        raise Bad('operands left on the stack')
+    if pending:
+        raise Bad('path never stroked')
+    return {'bbox': bb, 'scale': sc, 'segs': segs, 'color': stroke_color, 'bg': bg}
 
+
+# ------------------------------------------------------------------------ PDF
 def read_pdf(data):
-    if not data.startswith(b'%PDF-1.'): raise Bad('header')
-    sx = re.search(rb'startxref\r\n(\d+)\r\n%%EOF\r\n$', data)
-    if not sx: raise Bad('startxref')
+    if not data.startswith(b'%PDF-1.'):
+        raise Bad('PDF header')
+    sx = re.search(rb'startxref\r?\n(\d+)\r?\n%%EOF\r?\n?$', data)
+    if not sx:
+        raise Bad('startxref / %%EOF')
     xpos = int(sx.group(1))
-    if data[xpos:xpos+4] != b'xref': raise Bad('xref pos')
-    m = re.match(rb'xref\r\n0 (\d+)\r\n', data[xpos:])
-    n = int(m.group(1)); p = xpos + m.end()
+    if data[xpos:xpos + 4] != b'xref':
+        raise Bad('startxref does not point at xref')
+    m = re.match(rb'xref\r?\n0 (\d+)\r?\n', data[xpos:])
+    if not m:
+        raise Bad('xref subsection header')
+    n = int(m.group(1))
+    p = xpos + m.end()
     entries = []
-    for k in range(n):
-        e = data[p:p+20]; p += 20
-        mm = re.match(rb'^(\d{10}) (\d{5}) ([nf])\r\n$', e)
-        if not mm: raise Bad('xref entry %r' % e)
+    for _ in range(n):
+        e = data[p:p + 20]
+        p += 20
+        mm = re.match(rb'^(\d{10}) (\d{5}) ([nf])(?: \r| \n|\r\n)$', e)
+        if not mm:
+            raise Bad('xref entry %r' % e)
         entries.append((int(mm.group(1)), mm.group(3)))
-    defined = {int(mo.group(1)): mo.start() for mo in re.finditer(rb'(?<![0-9])(\d+) 0 obj', data)}
-    probs = []
-    for num, pos in defined.items():
+    tr = re.match(rb'trailer\s*<<(.*?)>>', data[p:], re.S)
+    if not tr:
+        raise Bad('trailer')
+    msize = re.search(rb'/Size (\d+)', tr.group(1))
+    mroot = re.search(rb'/Root (\d+) 0 R', tr.group(1))
+    if not msize or int(msize.group(1)) != n or not mroot:
+        raise Bad('trailer /Size or /Root')
+    defined = {}
+    for mo in re.finditer(rb'(?<![0-9])(\d+) 0 obj', data):
+        defined.setdefault(int(mo.group(1)), mo.start())
+    problems = []
+    for num, pos in sorted(defined.items()):
         if num >= len(entries) or entries[num][1] != b'n' or entries[num][0] != pos:
-            probs.append(('xref-offset', num, pos, entries[num] if num < len(entries) else None))
-    mb = re.search(rb'/MediaBox \[([^\]]+)\]', data)
-    media = [float(x) for x in mb.group(1).split()]
-    ms = re.search(rb'/Length (\d+) /Filter /FlateDecode>>\r\nstream\r\n', data)
-    ln = int(ms.group(1)); st = ms.end()
-    if data[st+ln:st+ln+11] != b'\r\nendstream': probs.append(('length', ln))
-    content = zlib.decompress(data[st:st+ln]).decode('ascii')
+            problems.append(('xref-offset', num, pos, entries[num][0] if num < len(entries) else None))
+    if entries and (entries[0][1] != b'f'):
+        problems.append(('xref-entry-0-not-free',))
+    # object graph: catalog -> pages -> page -> contents
+    def obj_body(num):
+        if num not in defined:
+            raise Bad('object %d not defined' % num)
+        st = defined[num]
+        return data[st:]
+    cat = obj_body(int(mroot.group(1)))
+    mp = re.search(rb'/Type /Catalog /Pages (\d+) 0 R', cat[:200])
+    if not mp:
+        raise Bad('catalog')
+    pages = obj_body(int(mp.group(1)))
+    mk = re.search(rb'/Type /Pages /Kids \[(\d+) 0 R\] /Count 1', pages[:200])
+    if not mk:
+        raise Bad('pages')
+    page = obj_body(int(mk.group(1)))
+    mb = re.search(rb'/MediaBox \[([^\]]+)\]', page[:300])
+    mc = re.search(rb'/Contents (\d+) 0 R', page[:300])
+    if not mb or not mc:
+        raise Bad('page object')
+    try:
+        media = [float(v) for v in mb.group(1).split()]
+    except ValueError:
+        raise Bad('MediaBox')
+    cont = obj_body(int(mc.group(1)))
+    ms = re.match(rb'\d+ 0 obj <</Length (\d+) /Filter /FlateDecode>>\r?\nstream\r?\n', cont)
+    if not ms:
+        raise Bad('content stream dictionary')
+    ln = int(ms.group(1))
+    st = ms.end()
+    raw = cont[st:st + ln]
+    after = cont[st + ln:st + ln + 20]
+    if not re.match(rb'\r?\nendstream\r?\nendobj', after):
+        problems.append(('stream-length', ln))
+        # recover the real extent for the geometry check
+        e = cont.find(b'endstream', st)
+        raw = cont[st:e].rstrip(b'\r\n')
+    try:
+        d = zlib.decompressobj()
+        content = d.decompress(raw) + d.flush()
+        if not d.eof:
+            raise Bad('content stream truncated')
+    except zlib.error as ex:
+        raise Bad('content stream does not inflate: %s' % ex)
+    try:
+        content = content.decode('ascii')
+    except UnicodeDecodeError:
+        raise Bad('content stream not ASCII')
     toks = content.split()
-    stack = []; ctm = [1, 0, 0, 1, 0, 0]; segs = []; cur = None; bg = None; fillc = (0,0,0); strokec = (0,0,0); rect = None
-    def mul(m, c):  # c = m x c (pre-multiply: new transform applied in current user space)
-        a, b, cc, d, e, f = m; A, B, C, D, E, F = c
-        return [a*A + b*C, a*B + b*D, cc*A + d*C, cc*B + d*D, e*A + f*C + E, e*B + f*D + F]
-    def tp(x, y):
-        a, b, c, d, e, f = ctm
-        return (a*x + c*y + e, b*x + d*y + f)
-    for t in toks:
-        if re.match(r'^-?[0-9.]+$', t): stack.append(float(t)); continue
-        if t == 'cm': m6 = stack[-6:]; del stack[-6:]; ctm = mul(m6, ctm)
-        elif t == 'rg': fillc = tuple(stack[-3:]); del stack[-3:]
-        elif t == 'RG': strokec = tuple(stack[-3:]); del stack[-3:]
-        elif t == 're': rect = stack[-4:]; del stack[-4:]; rect = (tp(rect[0], rect[1]), tp(rect[0]+rect[2], rect[1]+rect[3]))
-        elif t == 'f': bg = (fillc, rect)
-        elif t == 'q': pass
-        elif t == 'm': y = stack.pop(); x = stack.pop(); cur = (x, y)
-        elif t == 'l':
-            y = stack.pop(); x = stack.pop()
-            if y != cur[1]: raise Bad('non horizontal')
-            p1 = tp(*cur); p2 = tp(x, y); segs.append((p1[0], p1[1], p2[0])); cur = (x, y)
-        elif t == 'S': pass
-        else: raise Bad('op ' + t)
-    lw = abs(ctm[0])  # default line width 1 user unit
-    return dict(media=media, segs=segs, lw=lw, bg=bg, stroke=strokec, problems=probs, endobj=data.count(b'endobj'))
+    stack = []
+    ctm = [1.0, 0.0, 0.0, 1.0, 0.0, 0.0]
+    segs = []
+    pending = []
+    cur = None
+    bg = None
+    fillc = (0.0, 0.0, 0.0)
+    strokec = (0.0, 0.0, 0.0)
+    stroke_used = None
+    rect = None
+    lw_ctm = None
 
+    def mul(mm, c):
+        a, b, cc, dd, e, f = mm
+        A, B, C, D, E, F = c
+        return [a * A + b * C, a * B + b * D, cc * A + dd * C, cc * B + dd * D, e * A + f * C + E, e * B + f * D + F]
+
+    def tp(px, py):
+        a, b, c, dd, e, f = ctm
+        return (a * px + c * py + e, b * px + dd * py + f)
+    try:
+        for t in toks:
+            if re.match(r'^%s$' % NUM, t):
+                stack.append(float(t))
+                continue
+            if t == 'cm':
+                m6 = stack[-6:]
+                del stack[-6:]
+                if len(m6) != 6:
+                    raise Bad('cm operands')
+                ctm = mul(m6, ctm)
+            elif t == 'rg':
+                fillc = tuple(stack[-3:])
+                del stack[-3:]
+            elif t == 'RG':
+                strokec = tuple(stack[-3:])
+                del stack[-3:]
+            elif t == 're':
+                r4 = stack[-4:]
+                del stack[-4:]
+                rect = (tp(r4[0], r4[1]), tp(r4[0] + r4[2], r4[1] + r4[3]))
+            elif t == 'f':
+                if rect is None:
+                    raise Bad('f without path')
+                bg = (fillc, rect)
+                rect = None
+            elif t in ('q', 'Q'):
+                pass
+            elif t == 'm':
+                py = stack.pop()
+                px = stack.pop()
+                cur = (px, py)
+            elif t == 'l':
+                py = stack.pop()
+                px = stack.pop()
+                if py != cur[1]:
+                    raise Bad('non-horizontal line')
+                p1 = tp(*cur)
+                p2 = tp(px, py)
+                pending.append((p1[0], p1[1], p2[0]))
+                cur = (px, py)
+            elif t == 'S':
+                segs.extend(pending)
+                pending = []
+                stroke_used = strokec
+                lw_ctm = abs(ctm[0])
+            else:
+                raise Bad('operator %r' % t)
+    except (IndexError, TypeError) as ex:
+        raise Bad('content stream stack error: %s' % ex)
+    if stack or pending:
+        raise Bad('content stream ends with unused operands / unpainted path')
+    return {'media': media, 'segs': segs, 'lw': lw_ctm if lw_ctm is not None else 1.0, 'bg': bg, 'stroke': stroke_used,
+            'problems': problems, 'n_objects': len(defined), 'ctm': ctm}
+
+
+# ----------------------------------------------------------------------- TikZ
 def read_tex(text):
-    lw = float(re.search(r'\\pgfsetlinewidth\{([0-9.]+)([a-z]*)\}', text).group(1))
-    pts = re.findall(r'\\pgfpath(moveto|lineto)\{\\pgfqpoint\{(-?[0-9.]+)([a-zA-Z]*)\}\{(-?[0-9.]+)([a-zA-Z]*)\}\}', text)
-    segs = []; cur = None; units = set()
-    for kind, x, ux, y, uy in pts:
-        units.add(ux); units.add(uy)
-        if kind == 'moveto': cur = (float(x), float(y))
+    if '\\begin{pgfpicture}' not in text or '\\end{pgfpicture}' not in text:
+        raise Bad('no pgfpicture environment')
+    body = text[text.index('\\begin{pgfpicture}'):text.index('\\end{pgfpicture}')]
+    if body.count('{') != body.count('}'):
+        raise Bad('unbalanced braces')
+    m = re.search(r'\\pgfsetlinewidth\{(%s)([a-zA-Z]*)\}' % NUM, body)
+    if not m:
+        raise Bad('no \\pgfsetlinewidth')
+    lw = float(m.group(1))
+    unit = m.group(2)
+    segs = []
+    cur = None
+    units = {unit}
+    n_cmds = 0
+    for mm in re.finditer(r'\\pgfpath(moveto|lineto)\{\\pgfqpoint\{(%s)([a-zA-Z]*)\}\{(%s)([a-zA-Z]*)\}\}' % (NUM, NUM), body):
+        n_cmds += 1
+        kind, x, ux, y, uy = mm.groups()
+        units.update((ux, uy))
+        if kind == 'moveto':
+            cur = (float(x), float(y))
         else:
-            if float(y) != cur[1]: raise Bad('non horizontal')
+            if cur is None or float(y) != cur[1]:
+                raise Bad('lineto without moveto / non-horizontal')
             segs.append((cur[0], cur[1], float(x)))
-    color = re.search(r'\\color\{([^}]*)\}', text)
-    return dict(lw=lw, segs=segs, units=units, color=color.group(1) if color else None)
+            cur = None
+    if n_cmds != body.count('\\pgfpath'):
+        raise Bad('unparsed \\pgfpath command')
+    if len(units) != 1:
+        raise Bad('mixed units %r' % sorted(units))
+    if '\\pgfusepath{stroke}' not in body:
+        raise Bad('path never stroked')
+    color = re.search(r'\\color\{([^}]*)\}', body)
+    href = re.search(r'\\href\{([^}]*)\}\{', text)
+    return {'lw': lw, 'unit': unit, 'segs': segs, 'color': color.group(1) if color else None,
+            'url': href.group(1) if href else None}
+
+
+# -------------------------------------------------------------------- coverage
+def cover(segments, lw, tol=1e-6):
+    """segments: (x1, y_centre, x2) in page units, top-left origin, stroke width lw.
+    -> ({(row, col): times covered}, problems)"""
+    cells = {}
+    probs = []
+    for (x1, y, x2) in segments:
+        if x2 < x1:
+            x1, x2 = x2, x1
+        r = (y - lw / 2) / lw
+        c1 = x1 / lw
+        c2 = x2 / lw
+        if abs(r - round(r)) > tol or abs(c1 - round(c1)) > tol or abs(c2 - round(c2)) > tol:
+            probs.append(('off-grid', round(x1, 6), round(y, 6), round(x2, 6)))
+            continue
+        r = int(round(r))
+        for c in range(int(round(c1)), int(round(c2))):
+            cells[(r, c)] = cells.get((r, c), 0) + 1
+    return cells, probs
